@@ -21,7 +21,8 @@ SOURCE = os.path.join(C.REPO, "src", "zope", "interface", "interface.py")
 
 RULE = ("real ``def``s: every combination of 0..4 positional-only, 0..4 positional-or-keyword (every legal "
         "number of defaults), 0..4 keyword-only parameters, with/without *name and **name, plus a random "
-        "stream with random names (incl. parameters called args/kw/self), locals and function attributes; "
+        "stream with random names (incl. parameters called args/kw/self), locals and function attributes (values "
+        "incl. the falsy False, 0, '', (), 0.0, [], None) read back through every tagged-value accessor; "
         "described through fromFunction(f), fromMethod(bound), fromFunction(f, imlevel=1), "
         "class I(Interface): def f and class IA(ABCInterface) over class A(abc.ABC): def f; methods without a "
         "named positional parameter through every route; SEQUENCES of two descriptions in one process where the "
@@ -44,7 +45,8 @@ ASSUMPTIONS = ["parameter names are non-empty identifiers (``if self.varargs`` t
                "a bound callable without positional parameter and without *args has no inspect.signature; "
                "its description is judged against the function's own signature (nothing stripped)"]
 
-OBJS = ["1", "'s'", "None", "(1, 2)", "2.5", "-7", "'a b'", "True", "'\\u00e9'", "()", "1000003", "[]"]
+OBJS = ["1", "'s'", "None", "(1, 2)", "2.5", "-7", "'a b'", "True", "'\\u00e9'", "()", "1000003", "[]",
+        "False", "0", "''", "0.0"]      # falsy values included: False 0 '' 0.0 () [] None
 PLAIN = ["a", "b", "c", "d", "e", "x", "y", "z", "p", "q", "r", "s", "t", "u", "v", "w", "n", "m", "i", "j",
          "k", "key", "value", "default", "name", "obj", "_", "_x", "long_parameter_name", "été"]
 TRICKY = ["args", "kw", "kwargs", "self", "cls", "opt", "names", "code", "func", "method"]
@@ -155,7 +157,7 @@ def generate(run, tier):
         for via in range(NVIA):
             sh = _shape(rng, 0, 0, 0, nk, va, vk, rng.choice([0, 1, 2]), rng.choice([0, 1]), tricky=rng.random() < 0.5)
             cases.append(make_case(sh, via))
-    n = 700 if tier == "quick" else 8000
+    n = 500 if tier == "quick" else 8000
     top = 4 if tier == "quick" else 7
     for _ in range(n):
         n0, n1, nk = rng.randint(0, top), rng.randint(0, top), rng.randint(0, top)
@@ -169,7 +171,7 @@ def generate(run, tier):
     # SEQUENCES: describe f, then a second function object with the same __code__ and other
     # __defaults__ (closure sibling / types.FunctionType / f.__defaults__ reassigned); the second
     # description is the one judged
-    n = 600 if tier == "quick" else 5000
+    n = 450 if tier == "quick" else 5000
     for _ in range(n):
         n0, n1, nk = rng.randint(0, 3), rng.randint(0, 3), rng.randint(0, 2)
         if n0 + n1 == 0:
@@ -238,10 +240,15 @@ def coq_case(case, obs, mode):
     else:
         res = "IndexError"
         other = obs.get("exc") != "raised:IndexError"
-    return "(mkCase %s %s %d %s %s %s %s %s %s %s %s)" % (
+    none = obs["reprs"].index("None") if "None" in obs["reprs"] else 998
+    tags = C.clist([str(nm(x)) for x in obs.get("tags", [])])
+    dtags = C.clist([str(nm(x)) for x in obs.get("dtags", [])])
+    reads = C.clist(["(%d, %s)" % (nm(t), C.clist([str(x) for x in rs])) for t, rs in obs.get("reads", [])])
+    # the name table is complete only now (nm assigns indices on first use)
+    return "(mkCase %s %s %d %s %s %s %s %s %s %s %s %d %s %s %s)" % (
         C.clist([C.cstr_codes(x) for x in nm.tbl]), C.clist([C.cstr_codes(x) for x in obs["reprs"]]),
         case["via"], code, C.cbool(obs["has_dc"]), view_f, view_t, attrs, res, C.cbool(other),
-        C.cstr_codes(obs.get("sigstr", "")))
+        C.cstr_codes(obs.get("sigstr", "")), none, tags, dtags, reads)
 
 
 def _sig(obs):
@@ -299,9 +306,13 @@ def replay_text(case, obs, mode):
                      "g.__kwdefaults__ = %s.__kwdefaults__; g.__dict__.update(%s.__dict__)\n" % (fn, dflt, fn, fn))
         fn = "g"
     text += ("%s\nprint(m.getSignatureInfo(), m.getSignatureString(), inspect.signature(%s))\n"
+             "for t in list(m.getTaggedValueTags()) + ['absent_tag_']:   # must agree with the function's __dict__\n"
+             "    print(t, m.queryTaggedValue(t), m.queryTaggedValue(t, 'DEFAULT'), m.queryDirectTaggedValue(t, 'DEFAULT'))\n"
+             "# observed reads per tag [get, getDirect, query, queryDirect, query(t, d), queryDirect(t, d)] "
+             "(object index | 1000 KeyError | 1001 default | 1003 None): %r\n"
              "# observed: info=%r string=%r exc=%r\n# inspect.signature view of the described function "
              "(name, kind, default index): %r"
-             % (call % fn, fn, obs.get("info"), obs.get("sigstr"), obs.get("exc"), obs.get("view_f")))
+             % (call % fn, fn, obs.get("reads"), obs.get("info"), obs.get("sigstr"), obs.get("exc"), obs.get("view_f")))
     return text
 
 
